@@ -100,7 +100,9 @@ def _content_async(c):
 
 def _extensions(spec):
     ext = dict(spec.get("extensions") or {})
-    if spec.get("timeouts") is not None:
+    if spec.get("timeouts_obj") is not None:
+        ext["timeout"] = spec["timeouts_obj"]  # ONE caller-owned dict object used for several requests (no copy)
+    elif spec.get("timeouts") is not None:
         ext["timeout"] = dict(spec["timeouts"])
     if spec.get("sni"):
         ext["sni_hostname"] = spec["sni"]
